@@ -181,6 +181,27 @@ class World:
 
             self.rails.register_action(rail_wrapper, name="verif_rail")
             self.rails.register_action(dialog_wrapper, name="verif_lookup")
+        elif form in ("class-sync", "class-async"):
+            # actions registered as classes (instantiated lazily by the dispatcher) whose `run` is sync / async
+            world = self
+            if form == "class-sync":
+                class RailCls:
+                    def run(self, **kw):
+                        return world._rail_sync(**kw)
+
+                class DialogCls:
+                    def run(self, **kw):
+                        return world._dialog_sync(**kw)
+            else:
+                class RailCls:
+                    async def run(self, **kw):
+                        return world._rail_sync(**kw)
+
+                class DialogCls:
+                    async def run(self, **kw):
+                        return world._dialog_sync(**kw)
+            self.rails.register_action(RailCls, name="verif_rail")
+            self.rails.register_action(DialogCls, name="verif_lookup")
         else:
             raise ValueError(form)
         for name, fn in actions:
